@@ -8,9 +8,14 @@ section ends) is a multiple of pi/2 for s in {1, 2}, decided exactly.
  (ii)  kG0 is homogeneous of degree 1 in (Fc, P, T) and the split kG0_Fc + kG0_P + kG0_T == kG0 (through the real
        ConeCyl._calc_linear_matrices with combined_load_case);
  (iii) isotropic short-cut models == general models fed the isotropic laminate ConeCyl._rebuild builds;
- (iv)  every entry the kernels write below the diagonal equals its mirror (what make_symmetric would silently discard).
-NOT decided: that k0 is the Hessian of the package's strain energy (needs an exact trigonometric integrator for the
-bases, not built), positive semi-definiteness, sections s > 2, elastic-edge matrices beyond (i)/(iv)."""
+ (iv)  every entry the kernels write below the diagonal equals its mirror (what make_symmetric would silently discard);
+ (v)   the elastic edge-restraint part of k0, obtained through the real ConeCyl._calc_linear_matrices ->
+       modelDB.get_linear_matrices -> fk0edges with symbolic restraint values (fk0 / fk0_cyl stubbed to zero), equals the
+       Hessian of the edge-spring energy 1/2 oint (ku u^2 + kv v^2 + kw w^2 + kphix phix^2 + kphit phit^2) r dtheta at both
+       edges of the package's own displacement field (ConeCyl.uvw), on the series amplitudes; the circumferential integral
+       is the 4-point trapezoid rule at multiples of pi/2, exact for n2 = 1.
+NOT decided: that the shell part of k0 is the Hessian of the package's strain energy (needs an exact integrator along the
+meridian, not built), positive semi-definiteness, sections s > 2, edge restraints for n2 > 1."""
 import json, os
 import numpy as np
 import z3
@@ -160,6 +165,99 @@ def build(cfg, values=None):
                 Kg = cg.k0.todict()
                 for k in sorted(set(Ki) | set(Kg)):
                     obs.append(('k0-iso-vs-general[%d,%d]' % k, Ki.get(k, 0), Kg.get(k, 0)))
+    elif variant == 'edges':
+        # elastic edge restraints: the part of k0 that ConeCyl._calc_linear_matrices obtains through
+        # modelDB.get_linear_matrices -> fk0edges, against the Hessian of the edge-spring energy
+        #    U = 1/2 sum_edges oint ( ku u^2 + kv v^2 + kw w^2 + kphix phix^2 + kphit phit^2 ) r dtheta
+        # of the package's own displacement field (ConeCyl.uvw); the circumferential integral by the N-point trapezoid rule,
+        # exact for trigonometric polynomials of degree < N (N = 4: n2 = 1), nodes at multiples of pi/2 (exact values)
+        import compmech.conecyl.modelDB as mdb
+        rel, nF = (MODELS[model] if model in MODELS else (ISO[model][0], 6))
+        base = ISO[model][1] if model in ISO else model
+        commons_rel = os.path.join(os.path.dirname(MODELS[base][0]), '%s_commons_%s.pyx' % (base.split('_')[0], base.split('_')[-1]))
+        lin = LazyNS(ctx.kernels, rel)
+        size_box = []
+
+        class LinearWithoutShellPart:
+            """the linear module with fk0 / fk0_cyl replaced by zero matrices (stub): only the edge matrix remains in k0"""
+            def __getattr__(self, name):
+                if name in ('fk0', 'fk0_cyl'):
+                    return lambda *a: ShimCSR((size_box[0], size_box[0]))
+                return getattr(lin, name)
+        newdb = {}
+        for name, e in mdb.db.items():
+            e = dict(e)
+            if name == model:
+                e['linear'] = LinearWithoutShellPart()
+                e['commons'] = LazyNS(ctx.kernels, commons_rel)
+            if name == base and base != model:
+                e['linear'] = LazyNS(ctx.kernels, MODELS[base][0])
+            newdb[name] = e
+
+        def read_stack(stack, plyts=None, laminaprops=None, **kw):
+            lam = type('Lam', (), {})()
+            F = sym_F(ctx, 8)
+            lam.ABDE = F
+            lam.ABD = F[0:6, 0:6].copy()
+            return lam
+        ks = ('kuBot', 'kuTop', 'kvBot', 'kvTop', 'kwBot', 'kwTop', 'kphixBot', 'kphixTop', 'kphitBot', 'kphitTop')
+        with ctx.shadow(extra_stubs={'compmech.conecyl.modelDB.db': newdb, 'compmech.composite.laminate.read_stack': read_stack,
+                                     'compmech.conecyl.conecyl.get_model': lambda name: newdb[name]}):
+            cc = ctx.new_cone(model, m1, m2, n2)
+            cc.s = s
+            cc.r2, cc.L = r2, L
+            cc.alphadeg = V('alphadeg') if cfg.get('cone', True) else 0.
+            cc.tLAdeg = 0.
+            cc.P, cc.T, cc.Fc = 0., 0., 0.
+            if model in ISO:
+                cc.laminaprop, cc.stack, cc.plyt = None, [], None
+                cc.E11, cc.nu, cc.h = V('E11'), V('nu'), V('h')
+            for nm in ks:
+                setattr(cc, nm, V(nm))
+            cc.bc = None
+            cc._rebuild()
+            size = cc.get_size()
+            size_box.append(size)
+            cc._calc_linear_matrices(silent=True)
+            Kimpl = cc.k0.todict()
+            num0 = cc.num0 if hasattr(cc, 'num0') else mdb.db[model]['num0']
+            cc.out_num_cores = 1
+            cc.pdC = cc.pdT = cc.pdLA = False
+            cc.excluded_dofs = []
+            cc.excluded_dofs_ck = []
+            N = cfg.get('nodes', 4)
+            pi = ctx.trig.pi
+            G = {}      # (edge, node) -> 5 x size shape-function values
+            for edge, xe in (('Bot', L), ('Top', Sym.lift(0))):
+                for kk in range(N):
+                    te = pi * Fraction(2 * kk, N)
+                    rows = np.zeros((5, size), dtype=object)
+                    for a in range(num0, size):
+                        e = np.zeros(size, dtype=object)
+                        e[a] = 1
+                        out = cc.uvw(e, xs=np.array([xe], dtype=object), ts=np.array([te], dtype=object), inc=1)
+                        for f in range(5):
+                            rows[f, a] = Sym.lift(np.ravel(out[f])[0])
+                    G[(edge, kk)] = rows
+            redge = {'Bot': cc.r1, 'Top': cc.r2}
+            kval = {(f, e): getattr(cc, 'k%s%s' % (f, e)) for f in ('u', 'v', 'w', 'phix', 'phit') for e in ('Bot', 'Top')}
+            for a in range(num0, size):
+                for b in range(a, size):
+                    tot = Sym.lift(0)
+                    for edge in ('Bot', 'Top'):
+                        for kk in range(N):
+                            rows = G[(edge, kk)]
+                            for fi, f in enumerate(('u', 'v', 'w', 'phix', 'phit')):
+                                ga, gb = rows[fi, a], rows[fi, b]
+                                if (isinstance(ga, Sym) and ga.is_zero()) or (isinstance(gb, Sym) and gb.is_zero()):
+                                    continue
+                                tot = tot + kval[(f, edge)] * redge[edge] * ga * gb * (2 * pi / N)
+                    obs.append(('k0edges-vs-edge-energy[%d,%d]' % (a, b), Kimpl.get((a, b), 0), tot))
+                    if a != b:
+                        obs.append(('k0edges-symmetric[%d,%d]' % (a, b), Kimpl.get((b, a), 0), Kimpl.get((a, b), 0)))
+            for (a, b), v in sorted(Kimpl.items()):
+                if a < num0 or b < num0:
+                    obs.append(('k0edges-outside-series-block[%d,%d]' % (a, b), v, 0))
     else:
         raise ValueError(variant)
     assumptions = ctx.trig.circle_constraints() if values is None else []
@@ -185,6 +283,18 @@ def configs(tier, seed):
     for model in ISO:
         out.append({'variant': 'iso', 'model': model, 'mn': (1, 1, 1), 's': 1, 'cone': True, 'group': '(iii) iso=general:%s' % model, 'm': 1, 'n': 1, 'timeout_ms': 180000})
         out.append({'variant': 'iso', 'model': model, 'mn': (1, 1, 1), 's': 1, 'cone': False, 'group': '(iii) iso=general (cylinder):%s' % model, 'm': 1, 'n': 1, 'timeout_ms': 180000})
+    # (v) elastic edge restraints through get_linear_matrices / fk0edges against the edge-spring energy
+    import compmech.conecyl.modelDB as mdb
+    enames = [m for m in sorted(MODELS) + sorted(ISO) if m in mdb.db and hasattr(mdb.db[m]['linear'], 'fk0edges') or (m in ISO and m in mdb.db)]
+    for model in enames:
+        if model == 'fsdt_sanders_bcn':
+            continue
+        for cone in (True, False):
+            out.append({'variant': 'edges', 'model': model, 'mn': (2, 2, 1), 's': 1, 'cone': cone, 'nodes': 4, 'group': '(v) edge restraints = edge-spring energy:%s:%s' % (model, 'cone' if cone else 'cylinder'),
+                        'm': 2, 'n': 1, 'timeout_ms': 300000})
+        if not quick:
+            out.append({'variant': 'edges', 'model': model, 'mn': (3, 3, 1), 's': 1, 'cone': True, 'nodes': 4, 'group': '(v) edge restraints = edge-spring energy:%s:cone-331' % model,
+                        'm': 3, 'n': 1, 'timeout_ms': 600000})
     out[0]['canary'] = True
     out[-1]['canary'] = True
     return out
@@ -206,7 +316,9 @@ def main():
     cf = configs(run.tier, run.seed)
     run.bounds = {'models': sorted(MODELS) + sorted(ISO), 'series_orders_(m1,m2,n2)': sorted({c['mn'] for c in cf}), 'sections_s': sorted({c['s'] for c in cf}), 'configurations': len(cf)}
     run.assume('pi is a symbol; sin/cos of pi*k/2 exact, of the semi-vertex angle a pair of atoms with S^2+C^2=1', 'r2, L non-zero', 'laminate matrix symmetric (A,B,D / shear blocks)')
-    run.outside = ['k0 = Hessian of the strain energy of the package own strain field (no exact trigonometric integrator built)', 'positive semi-definiteness', 'sections s > 2',
+    run.stubs += ['fk0 / fk0_cyl return a zero matrix in the edge-restraint configurations (v) only', 'laminate.read_stack returns a symbolic ABD/ABDE']
+    run.outside = ['shell part of k0 = Hessian of the strain energy of the package own strain field (no exact meridional integrator built)', 'positive semi-definiteness', 'sections s > 2',
+                   'edge restraints for n2 > 1 (4-node circumferential rule)',
                    'bcn clpt/fsdt Donnell modules (not importable in this build) and the geier1997 / shadmehri2012 models']
     res = pmap(kprop.job, [(__name__, c) for c in cf])
     kprop.handle(run, res, build, 'entries differ between the two descriptions')
